@@ -1,10 +1,13 @@
 ---- MODULE HllUnionMech ----
 (***************************************************************************)
 (* The mechanism of hll_union as pure operators on a gadget record         *)
-(*   x = [hll, cs, lg, reg, nac, cmin, rb]                                 *)
+(*   x = [hll, cs, lg, reg, nac, cmin, rb, ooo, hipBad]                    *)
 (* (coupon mode: coupon set cs at lg; HLL mode: HLL_8 registers reg at lg  *)
 (* plus the stored - possibly stale - numAtCurMin nac and curMin cmin and  *)
-(* the rebuild flag rb), with lg_max_k as an explicit parameter.  Used by  *)
+(* the rebuild flag rb; ooo = out-of-order flag: the estimate is the        *)
+(* composite one, the HIP accumulator is not in use; hipBad = ghost: a HIP  *)
+(* increment was computed from a stale KxQ while the accumulator is in use),*)
+(* with lg_max_k as an explicit parameter.  Used by                          *)
 (* HllUnionDesign.tla (bounded model, refinement of the contract) and by   *)
 (* TraceHllUnion.tla (tier B shadow gadget, MODEL-DRIFT).                  *)
 (* PromoteCount(lg): number of distinct coupons at which a coupon-mode     *)
@@ -13,26 +16,30 @@
 (***************************************************************************)
 EXTENDS Naturals, FiniteSets, Sequences, TLC
 LOCAL INSTANCE SequencesExt
-CONSTANTS PromoteCount(_), FixedIsEmpty, FixedReset
+CONSTANTS PromoteCount(_), FixedIsEmpty, FixedReset,
+          FixedDownsampleKxq    \* TRUE: copy_or_downsample rebuilds KxQ / cur-min right after the down-sampling merge (fix 96157e7);
+                                \* FALSE: the rebuild stays pending while the source's HIP accumulator and in-order flag are kept
 
 GMaxOf(S) == IF S = {} THEN 0 ELSE CHOOSE x \in S : \A y \in S : y <= x
 GMinOf(S) == CHOOSE x \in S : \A y \in S : x <= y
 GSlots(lg) == 0..(2^lg - 1)
 Zeros(r) == Cardinality({s \in DOMAIN r : r[s] = 0})
-EmptyList(lg) == [hll |-> FALSE, cs |-> {}, lg |-> lg, reg |-> <<>>, nac |-> 0, cmin |-> 0, rb |-> FALSE]
+EmptyList(lg) == [hll |-> FALSE, cs |-> {}, lg |-> lg, reg |-> <<>>, nac |-> 0, cmin |-> 0, rb |-> FALSE, ooo |-> FALSE, hipBad |-> FALSE]
 \* what HllSketchImpl::isEmpty() computes
 IsEmpty(x) == IF x.hll THEN x.cmin = 0 /\ x.nac = 2^x.lg /\ (FixedIsEmpty => ~x.rb) ELSE x.cs = {}
 \* implementation state of an input sketch value (its own counters are exact)
 FromInput(sv) == IF sv.mode = 2
-                 THEN [hll |-> TRUE, cs |-> {}, lg |-> sv.lgK, reg |-> sv.top, nac |-> Zeros(sv.top), cmin |-> 0, rb |-> FALSE]
-                 ELSE [hll |-> FALSE, cs |-> sv.fed, lg |-> sv.lgK, reg |-> <<>>, nac |-> 0, cmin |-> 0, rb |-> FALSE]
+                 THEN [hll |-> TRUE, cs |-> {}, lg |-> sv.lgK, reg |-> sv.top, nac |-> Zeros(sv.top), cmin |-> 0, rb |-> FALSE, ooo |-> FALSE, hipBad |-> FALSE]
+                 ELSE [hll |-> FALSE, cs |-> sv.fed, lg |-> sv.lgK, reg |-> <<>>, nac |-> 0, cmin |-> 0, rb |-> FALSE, ooo |-> FALSE, hipBad |-> FALSE]
 
 \* Hll8Array::internalCouponUpdate on the stored (possibly stale) counters
 Upd8(x, c) == LET s == c[1] % (2^x.lg) IN
-              IF c[2] > x.reg[s] THEN [x EXCEPT !.reg[s] = c[2], !.nac = IF x.reg[s] = 0 THEN @ - 1 ELSE @] ELSE x
+              \* hipAndKxQIncrementalUpdate: hip += k / KxQ (if in order) with the STORED KxQ, which is stale while rb is set
+              IF c[2] > x.reg[s] THEN [x EXCEPT !.reg[s] = c[2], !.nac = IF x.reg[s] = 0 THEN @ - 1 ELSE @,
+                                                !.hipBad = @ \/ (x.rb /\ ~x.ooo)] ELSE x
 FoldUpd8(x, S) == FoldLeft(Upd8, x, SetToSeq(S))
 \* promotion of a coupon-mode implementation to an HLL_8 array (replay, counters exact)
-NewArr(lg) == [hll |-> TRUE, cs |-> {}, lg |-> lg, reg |-> [s \in GSlots(lg) |-> 0], nac |-> 2^lg, cmin |-> 0, rb |-> FALSE]
+NewArr(lg) == [hll |-> TRUE, cs |-> {}, lg |-> lg, reg |-> [s \in GSlots(lg) |-> 0], nac |-> 2^lg, cmin |-> 0, rb |-> FALSE, ooo |-> FALSE, hipBad |-> FALSE]
 \* HllSketchImpl::couponUpdate
 CouponUpd(x, c) == IF x.hll THEN Upd8(x, c)
                    ELSE IF c \in x.cs THEN x
@@ -47,8 +54,17 @@ MergeHll(dst, src) ==
               !.rb = TRUE]
 \* HllArray::copyAs(HLL_8) of an HLL_8 array: plain copy unless the rebuild flag is set (then replay: exact counters)
 CopyAs8(src) == IF src.rb THEN [src EXCEPT !.nac = Zeros(src.reg), !.cmin = 0, !.rb = FALSE] ELSE src
-\* hll_union::copy_or_downsample
-CopyOrDownsample(src, tgt) == IF src.lg <= tgt THEN CopyAs8(src) ELSE MergeHll(NewArr(tgt), src)
+\* check_rebuild_kxq_cur_min
+GCheckRebuild(x) ==
+  IF x.hll /\ x.rb
+  THEN LET m == GMinOf({x.reg[s] : s \in DOMAIN x.reg}) IN
+       [x EXCEPT !.cmin = m, !.nac = Cardinality({s \in DOMAIN x.reg : x.reg[s] = m}), !.rb = FALSE]
+  ELSE x
+\* hll_union::copy_or_downsample: the copy keeps the source's HIP accumulator and out-of-order flag
+CopyOrDownsample(src, tgt) ==
+  IF src.lg <= tgt THEN CopyAs8(src)
+  ELSE LET y == [MergeHll(NewArr(tgt), src) EXCEPT !.ooo = src.ooo, !.hipBad = src.hipBad] IN
+       IF FixedDownsampleKxq THEN GCheckRebuild(y) ELSE y
 \* hll_union::union_impl
 UnionImpl(dst, src, lgMaxK) ==
   IF ~src.hll
@@ -56,18 +72,13 @@ UnionImpl(dst, src, lgMaxK) ==
        ELSE FoldCoupon(dst, src.cs)
   ELSE IF ~IsEmpty(dst)
        THEN IF ~dst.hll THEN FoldUpd8(CopyOrDownsample(src, lgMaxK), dst.cs)    \* mergeList of the old gadget
-            ELSE MergeHll(IF src.lg < dst.lg THEN CopyOrDownsample(dst, src.lg) ELSE dst, src)
+            \* gadget in HLL mode: merge, then the result is out of order and the HIP accumulator is dropped
+            ELSE [MergeHll(IF src.lg < dst.lg THEN CopyOrDownsample(dst, src.lg) ELSE dst, src) EXCEPT !.ooo = TRUE, !.hipBad = FALSE]
        ELSE CopyOrDownsample(src, lgMaxK)
 \* update(const hll_sketch&) / update(hll_sketch&&) for a non-empty argument; t8 = the argument's target type is HLL_8
 GUpdate(x, src, rvalue, t8, lgMaxK) ==
   IF rvalue /\ IsEmpty(x) /\ t8 /\ src.lg <= lgMaxK /\ (src.hll \/ src.lg = lgMaxK)
   THEN UnionImpl(src, x, lgMaxK)          \* the argument is adopted as gadget, then the swapped-out object is merged
   ELSE UnionImpl(x, src, lgMaxK)
-\* get_estimate / get_composite_estimate / bounds: check_rebuild_kxq_cur_min as a side effect
-GCheckRebuild(x) ==
-  IF x.hll /\ x.rb
-  THEN LET m == GMinOf({x.reg[s] : s \in DOMAIN x.reg}) IN
-       [x EXCEPT !.cmin = m, !.nac = Cardinality({s \in DOMAIN x.reg : x.reg[s] = m}), !.rb = FALSE]
-  ELSE x
 GReset(x, lgMaxK) == EmptyList(IF FixedReset THEN lgMaxK ELSE x.lg)
 ====
